@@ -190,3 +190,96 @@ pub fn scan_source_constants() -> Vec<(String, String)> {
     }
     out
 }
+
+/// Associated constants declared for a type in plain `impl Type { pub const NAME: .. = ..; }` blocks
+/// (outside the newtype_enum! tables) anywhere in /repo/src: (type, constant name).
+pub fn scan_impl_constants() -> Vec<(String, String)> {
+    let mut out = Vec::new();
+    let mut files: Vec<_> = std::fs::read_dir("/repo/src").map(|d| d.filter_map(|e| e.ok()).map(|e| e.path()).collect()).unwrap_or_default();
+    files.sort();
+    for f in files {
+        let Ok(s) = std::fs::read_to_string(&f) else { continue };
+        // drop comments
+        let mut code = String::with_capacity(s.len());
+        let b: Vec<char> = s.chars().collect();
+        let mut i = 0;
+        while i < b.len() {
+            if b[i] == '/' && i + 1 < b.len() && b[i + 1] == '/' {
+                while i < b.len() && b[i] != '\n' {
+                    i += 1;
+                }
+            } else if b[i] == '/' && i + 1 < b.len() && b[i + 1] == '*' {
+                i += 2;
+                while i + 1 < b.len() && !(b[i] == '*' && b[i + 1] == '/') {
+                    i += 1;
+                }
+                i += 2;
+            } else {
+                code.push(b[i]);
+                i += 1;
+            }
+        }
+        let mut rest = code.as_str();
+        while let Some(p) = rest.find("impl") {
+            let before_ok = p == 0 || !rest.as_bytes()[p - 1].is_ascii_alphanumeric() && rest.as_bytes()[p - 1] != b'_';
+            let after = &rest[p + 4..];
+            rest = after;
+            if !before_ok || !after.starts_with(|c: char| c.is_whitespace()) {
+                continue;
+            }
+            let Some(ob) = after.find('{') else { break };
+            let header = after[..ob].trim();
+            // inherent impl of a plain type name only
+            if header.is_empty() || !header.chars().all(|c| c.is_alphanumeric() || c == '_') {
+                continue;
+            }
+            // matching close brace
+            let body_start = ob + 1;
+            let mut depth = 1;
+            let mut end = body_start;
+            for (k, c) in after[body_start..].char_indices() {
+                if c == '{' {
+                    depth += 1;
+                } else if c == '}' {
+                    depth -= 1;
+                    if depth == 0 {
+                        end = body_start + k;
+                        break;
+                    }
+                }
+            }
+            let body = &after[body_start..end];
+            // constants at depth 1 of the block
+            let mut d = 0;
+            let mut stmt = String::new();
+            for c in body.chars() {
+                match c {
+                    '{' => d += 1,
+                    '}' => {
+                        d -= 1;
+                        if d == 0 {
+                            stmt.clear();
+                        }
+                    }
+                    ';' if d == 0 => {
+                        let t = stmt.trim();
+                        // skip attributes in front of the item
+                        let t = t.rsplit(']').next().unwrap_or(t).trim();
+                        if let Some(r) = t.strip_prefix("pub const ") {
+                            if let Some((n, _)) = r.split_once(':') {
+                                let n = n.trim();
+                                if !n.is_empty() && n.chars().all(|c| c.is_alphanumeric() || c == '_') {
+                                    out.push((header.to_string(), n.to_string()));
+                                }
+                            }
+                        }
+                        stmt.clear();
+                    }
+                    _ if d == 0 => stmt.push(c),
+                    _ => {}
+                }
+            }
+        }
+    }
+    out
+}
